@@ -6,6 +6,7 @@ import ConfModel.Lemmas.WireChecks
 import ConfModel.Lemmas.ConnectJson
 import ConfModel.Lemmas.BinMeta
 import ConfModel.Model.Capture
+import ConfModel.Model.Session
 import ConfModel.Generated.C13Facts
 import ConfModel.Spec.ContentCoding
 namespace ConfModel.Props.C13
@@ -1029,5 +1030,90 @@ theorem demand_cases (applied : Nat) (enc : Option String) :
   simp [payloadReachesExaminer]
 
 end Coding
+
+/-! ## Histories of calls: the examination of call k is a function of response k only
+
+`Model/Session.lean`: the glue around one call (`withWireCapture` - `wireReader` -
+`examineWireDetails`) with the state the process keeps between calls as a parameter.  The code as
+it is keeps nothing (`fresh`).  Whatever the examiner (`examine`, arbitrary - the examiners of the
+other sections, the decompressor's failure to read a body to its end included: it returns the
+unread rest) and whatever the history, the feedback of a call is the feedback of the same
+response as the only call. -/
+section Histories
+open ConfModel.Session
+
+/-- Any glue whose reachable states hand out EMPTY buffers is history independent. -/
+theorem session_history_independent {S R F : Type} (g : Glue S) (inv : S → Prop) (hg : Clean g inv)
+    (examine : R → Capture.Bytes → F × Capture.Bytes) (s : S) (hs : inv s)
+    (calls : List (R × List Capture.Bytes)) :
+    Session.run g examine s calls = calls.map (alone examine) := by
+  induction calls generalizing s with
+  | nil => rfl
+  | cons c t ih =>
+    obtain ⟨hb, hr⟩ := hg s hs
+    have hbuf : (c.2.foldl Capture.read { buf := (g.acquire s).1, delivered := [] }).buf = c.2.flatten := by
+      rw [(capture_foldl c.2 _).1, hb]; rfl
+    simp only [Session.run, Session.call, List.map_cons, hbuf]
+    rw [ih _ (hr _)]
+    rfl
+
+/-- **The code as it is** (a new buffer per call): for every examiner and every history, the
+feedback of the calls is the examiner's feedback on each response alone. -/
+theorem session_fresh {R F : Type} (examine : R → Capture.Bytes → F × Capture.Bytes)
+    (calls : List (R × List Capture.Bytes)) :
+    Session.run fresh examine () calls = calls.map (alone examine) :=
+  session_history_independent fresh (fun _ => True)
+    (fun _ _ => ⟨rfl, fun _ => trivial⟩) examine () trivial calls
+
+/-- … call by call: what precedes and what follows a call does not matter. -/
+theorem session_call_k {R F : Type} (examine : R → Capture.Bytes → F × Capture.Bytes)
+    (pre post : List (R × List Capture.Bytes)) (c : R × List Capture.Bytes) :
+    (Session.run fresh examine () (pre ++ c :: post))[pre.length]? = some (alone examine c) := by
+  rw [session_fresh]
+  simp
+
+/-- **Well-formed ⇒ silent regardless of history**: if the examiner is silent on every
+well-formed response examined alone, a well-formed response is silent after any history. -/
+theorem session_wellformed_silent {R F : Type} (examine : R → Capture.Bytes → F × Capture.Bytes)
+    (wf : R × List Capture.Bytes → Prop) (silent : F → Prop)
+    (h : ∀ c, wf c → silent (alone examine c))
+    (pre post : List (R × List Capture.Bytes)) (c : R × List Capture.Bytes) (hc : wf c) :
+    ∃ fb, (Session.run fresh examine () (pre ++ c :: post))[pre.length]? = some fb ∧ silent fb :=
+  ⟨_, session_call_k examine pre post c, h c hc⟩
+
+/-- a pool that resets its buffers is history independent too (any state: a list of empty buffers) -/
+theorem session_pooled_reset {R F : Type} (examine : R → Capture.Bytes → F × Capture.Bytes)
+    (calls : List (R × List Capture.Bytes)) :
+    Session.run pooledReset examine [] calls = calls.map (alone examine) := by
+  refine session_history_independent pooledReset (fun s => ∀ b ∈ s, b = []) ?_ examine [] (by simp) calls
+  intro s hs
+  cases s with
+  | nil => exact ⟨rfl, fun _ => by simp [pooledReset]⟩
+  | cons b t =>
+    refine ⟨hs b (by simp), fun _ => ?_⟩
+    intro x hx
+    simp only [pooledReset, List.mem_cons] at hx
+    rcases hx with rfl | hx
+    · rfl
+    · exact hs x (by simp [hx])
+
+/-- toy examiner of the witness: a decodable response (`true`) is read to its end and the
+feedback is what was read; an undecodable one (`false`) is not read at all -/
+def toyExamine (decodable : Bool) (buf : Capture.Bytes) : Capture.Bytes × Capture.Bytes :=
+  if decodable then (buf, []) else ([], buf)
+
+example : Session.run fresh toyExamine () [(false, [[1, 2]]), (true, [[3]])] = [[], [3]] := by decide
+
+/-- Non-vacuity / discriminating witness: buffers recycled WITHOUT a reset make the feedback of a
+call depend on the call before it (the unread body of an undecodable response is examined with
+the next response); with a reset, or with a new buffer per call, it does not. -/
+theorem pooled_session_witness :
+    Session.run pooled toyExamine [] [(false, [[1, 2]]), (true, [[3]])] = [[], [1, 2, 3]] ∧
+    Session.run pooledReset toyExamine [] [(false, [[1, 2]]), (true, [[3]])] = [[], [3]] ∧
+    Session.run fresh toyExamine () [(false, [[1, 2]]), (true, [[3]])] = [[], [3]] ∧
+    [(false, [[1, 2]]), ((true, [[3]]) : Bool × List Capture.Bytes)].map (alone toyExamine) = [[], [3]] := by
+  decide
+
+end Histories
 
 end ConfModel.Props.C13
